@@ -16,7 +16,7 @@ CLAIMS = {
         ref="DESIGN.md §5 C01", tech=TECH_V + "; bounded executable stand-in (xsim) as counterexample generator and fallback, labelled bounded"),
     "C06": dict(
         text="Verus proves that Simulation::run maps UnprocessedMessages to Deadlock exactly when an observed mailbox is non-empty, listing exactly the non-empty observers with name and size in registration order, and to MessageLoss otherwise, for every observer vector and executor result (unit sim); and that every model added through SimInit::add_model or BuildContext::add_submodel, to any depth, gets exactly one mailbox observer registered under its qualified name (unit reg). Kani proves Queue::len (the observed size) exact when quiescent.",
-        note="that the count handed up by the executor equals sent minus received is proved for the single-threaded executor's ExecutorInner::run (unit stexec: thread-locals as an explicit Tls value, the task loop abstracted; stand-in xexec supplies concrete scripts); the counter moves in Sender::send / Receiver::recv are decided only within the bound of stand-in xchan; the multi-threaded executor's per-thread counters are not decided; ProtoModel::build touches the registries only through add_submodel (private fields); A-exec",
+        note="that the count handed up by the executor equals sent minus received is proved for the single-threaded executor's ExecutorInner::run (unit stexec: thread-locals as an explicit Tls value, the task loop abstracted; stand-in xexec supplies concrete scripts); the counter moves in Sender::send / Receiver::recv are decided only within the bound of stand-in xchan; for the multi-threaded executor, unit mtexec proves that Executor::run reports only from a pool it has seen idle and from a count read after that observation (a stale read is refuted); that the workers fold their per-thread counters before the pool looks idle is an assumption (A-mt) that was false until the fix of finding F8 and is not decided by any obligation; ProtoModel::build touches the registries only through add_submodel (private fields); A-exec",
         ref="DESIGN.md §5 C06", tech=TECH_VK + "; bounded executable stand-ins (xreg: registration and reports; xexec: the single-threaded executor's count; xchan: the counter moves of send / recv), labelled bounded"),
     "C07": dict(
         text="Verus proves: PriorityQueue is FIFO among equal keys (pq); scheduling inserts exactly one entry keyed (deadline, origin) (sched); a step puts all live same-(time, origin) entries into one task in queue order (sim); SeqFuture polls its futures strictly in push order (seqfut).",
@@ -36,7 +36,7 @@ CLAIMS = {
         ref="DESIGN.md §5 C10", tech=TECH_VK + "; bounded executable stand-ins (xsim, xsched) as counterexample generators, labelled bounded"),
     "C11": dict(
         text="Verus proves the mapping of every ExecutorError value by Simulation::run (Timeout, Panic with model name and payload, NoRecipient for SendError payloads), that every fatal error sets the terminated flag, and that step/step_until/process on a terminated simulation return Terminated without moving the time or entering the executor (unit sim); the ModelId given to each model task indexes that model's own qualified name (unit reg).",
-        note="that the executors produce the right ExecutorError is proved for the single-threaded executor's ExecutorInner::run (unit stexec: Panic iff a task panicked, with its model id and payload, whatever the counters say; stand-in xexec supplies concrete scripts); the multi-threaded executor and the timeout thread are not decided; the executor stub may become unusable after a failed run (finding F6), so every public operation must check is_terminated before touching it",
+        note="that the executors produce the right ExecutorError is proved for the single-threaded executor's ExecutorInner::run (unit stexec: Panic iff a task panicked, with its model id and payload, whatever the counters say; stand-in xexec supplies concrete scripts); for the multi-threaded executor, unit mtexec proves that Executor::run reports a panic taken out of the pool manager always and as Panic with the registered model and payload, and Timeout only after the abort signal is set and all workers woken; that the workers register the right model id and the timeout thread of the single-threaded executor are not decided; the executor stub may become unusable after a failed run (finding F6), so every public operation must check is_terminated before touching it",
         ref="DESIGN.md §5 C11", tech=TECH_V + "; bounded executable stand-ins (xsim, xreg as counterexample generators and fallback; xexec for the single-threaded executor's report), labelled bounded"),
     "C12": dict(
         text="Kani proves, per capacity (1,2 quick; 1..5 thorough) and for every representation-invariant-satisfying state (any sequence count, fill level, open/closed) - i.e. for histories of any length - the sequential contracts of Queue::{push,pop + MessageBorrow::drop,close,len,next_queue_pos}: never more than capacity messages, FIFO, each message exactly once, len exact, Full only when full, after close pushes fail and accepted messages stay receivable. The concurrency half of the property (linearizability under multi-producer interleavings, no lost wake-ups in channel.rs) is NOT decided.",
@@ -93,8 +93,8 @@ def main():
     m = {
         "version": 1,
         "setup_cmd": "./setup.sh",
-        "hooks": {"guard": "asynchronix_verif", "enable": "RUSTFLAGS='--cfg asynchronix_verif' (only used to replay finding F4; the proofs extract from unmodified sources)",
-                  "baseline_off_cmd": "cd /repo && cargo test --workspace --no-fail-fast --offline", "source_commits": ["a47bf58275e0690da0183f478b76270ded0ebbd7", "c8939aeaa339aae2c0ded1d451ca3dcee517b2b7"], "add_only": True},
+        "hooks": {"guard": "asynchronix_verif", "enable": "RUSTFLAGS='--cfg asynchronix_verif' (only used to replay findings F4 and F8; the proofs extract from unmodified sources)",
+                  "baseline_off_cmd": "cd /repo && cargo test --workspace --no-fail-fast --offline", "source_commits": ["a47bf58275e0690da0183f478b76270ded0ebbd7", "c8939aeaa339aae2c0ded1d451ca3dcee517b2b7", "b4009154d7bad07e13c3de16efe425bfb81c288e"], "add_only": True},
         "engines": [{"name": "vk", "path": "/verif/vk", "serves_properties": sorted(CLAIMS),
                      "kind_free_text": "contract templates (/verif/contracts) + mechanical extraction and token merge from /repo + Verus (unbounded) / Kani (complete or bounded, labelled)"}],
         "checks": checks,
